@@ -105,12 +105,8 @@ def showVersionOpt : Option Version → String
   | none => "none"
   | some v => encodeVersion v
 
-/-- expression trees for C15: prefix tokens `I`, `D`, `L<hex>` -/
-inductive Expr where
-  | leaf (t : List Char)
-  | isect (a b : Expr)
-  | diff (a b : Expr)
-
+/-- expression trees for C15: prefix tokens `I`, `D`, `L<hex>`; leaves are parsed with the model's
+`Range.parse` (`none` if a leaf does not parse) -/
 def parseExpr : Nat → List String → Option (Expr × List String)
   | 0, _ => none
   | _ + 1, [] => none
@@ -122,27 +118,10 @@ def parseExpr : Nat → List String → Option (Expr × List String)
     else match tok.toList with
       | 'L' :: h => do
         let t ← decodeText (String.ofList h)
-        pure (.leaf t, rest)
+        match Range.parse t with
+        | .ok r => pure (.leaf r, rest)
+        | .error _ => none
       | _ => none
-
-/-- evaluation: `none` = panic / unparsable leaf, `some none` = empty -/
-def Expr.eval : Expr → Option (Option Range)
-  | .leaf t => match Range.parse t with
-    | .ok r => some (some r)
-    | .error _ => none
-  | .isect a b => do
-    let x ← a.eval
-    let y ← b.eval
-    match x, y with
-    | some x, some y => pure (Range.intersect x y)
-    | _, _ => pure none
-  | .diff a b => do
-    let x ← a.eval
-    let y ← b.eval
-    match x, y with
-    | some x, some y => Range.difference x y
-    | some x, none => pure (some x)
-    | none, _ => pure none
 
 def withRange (f : String) (k : Range → String) : String :=
   match decodeText f with
@@ -182,13 +161,19 @@ def answer (op : String) (args : List String) : String :=
     match a.toNat?, b.toNat?, c.toNat? with
     | some a, some b, some c =>
       let v := Version.mk3 a b c
-      s!"{encodeVersion v} {encodeText v.render}"
+      let p := match Version.parse (renderCore a b c) with
+        | .ok w => encodeVersion w
+        | .error _ => "perr"
+      s!"{encodeVersion v} {encodeText v.render} parse={p}"
     | _, _, _ => "badreq"
   | "vfrom4", [a, b, c, d] =>
     match a.toNat?, b.toNat?, c.toNat?, d.toNat? with
     | some a, some b, some c, some d =>
       let v := Version.mk4 a b c d
-      s!"{encodeVersion v} {encodeText v.render}"
+      let p := match Version.parse (renderCore a b c ++ '-' :: renderNat d) with
+        | .ok w => encodeVersion w
+        | .error _ => "perr"
+      s!"{encodeVersion v} {encodeText v.render} parse={p}"
     | _, _, _, _ => "badreq"
   | "vround", [t] =>
     -- parse, print, parse again: same in all five fields? printing stable?
@@ -232,7 +217,7 @@ def answer (op : String) (args : List String) : String :=
           let eq := r.length == r'.length && (r.zip r').all (fun (x, y) => x.beq y)
           s!"ok {encodeText j} eq={b01 eq}"
         | none => "deser-fail")
-  | "sat", [r, v] =>
+  | "sat", [r, _printed, v] =>
     match decodeVersion v with
     | some v => withRange r (fun r => b01 (r.satisfies v))
     | none => "badreq"
@@ -240,14 +225,18 @@ def answer (op : String) (args : List String) : String :=
   | "rdiff", [a, b] => with2Ranges a b (fun a b => match a.difference b with
       | some r => showRangeOpt r
       | none => "panic")
-  | "any", [a, b] => with2Ranges a b (fun a b => b01 (a.allowsAny b))
-  | "all", [a, b] => with2Ranges a b (fun a b => b01 (a.allowsAll b))
-  | "minv", [r] => withRange r (fun r => showVersionOpt r.minVersion)
-  | "maxsat", r :: vs =>
+  | "any", [a, b] => with2Ranges a b (fun a b =>
+      s!"{b01 (a.allowsAny b)} isect={b01 (a.intersect b).isSome} rev={b01 (b.allowsAny a)}")
+  | "all", [a, b] => with2Ranges a b (fun a b =>
+      match b.difference a with
+      | some d => s!"{b01 (a.allowsAll b)} any={b01 (a.allowsAny b)} self={b01 (a.allowsAll a)} diffnone={b01 d.isNone}"
+      | none => "panic")
+  | "minv", [r, _printed] => withRange r (fun r => showVersionOpt r.minVersion)
+  | "maxsat", r :: _printed :: vs =>
     match vs.mapM decodeVersion with
     | some vs => withRange r (fun r => showVersionOpt (r.maxSatisfying vs))
     | none => "badreq"
-  | "minsat", r :: vs =>
+  | "minsat", r :: _printed :: vs =>
     match vs.mapM decodeVersion with
     | some vs => withRange r (fun r => showVersionOpt (r.minSatisfying vs))
     | none => "badreq"
@@ -261,23 +250,276 @@ def answer (op : String) (args : List String) : String :=
   | "const", [] => s!"{MAX_SAFE_INTEGER} {MAX_LENGTH}"
   | _, _ => "badreq"
 
-/-- oracles: spec-level checks of the crate's own answer; returns failing (property, detail) -/
-def oracles (op : String) (args : List String) (impl : String) : List (String × String) :=
+/-! ## Oracles: spec-level checks of the crate's own answers -/
+
+namespace Oracle
+open Semver.Spec
+
+def toEndpoint : Pred → Option Endpoint
+  | .inc v => some ⟨v, true⟩
+  | .exc v => some ⟨v, false⟩
+  | .unb => none
+
+def toInterval (s : BoundSet) : Option Interval :=
+  match s.lower, s.upper with
+  | .lo p, .up q => some ⟨toEndpoint p, toEndpoint q⟩
+  | _, _ => none
+
+/-- the set denoted by a printed range (read with the model's parser, which C13 proves to invert
+`Display`); `none` if the text is not a printed range -/
+def vsetOfText (t : List Char) : Option VSet :=
+  match Range.parse t with
+  | .ok r =>
+    let is := r.filterMap toInterval
+    if is.length == r.length then some is else none
+  | .error _ => none
+
+def vsetOfField (f : String) : Option VSet := (decodeText f).bind vsetOfText
+
+/-- result field `none | some <hex> | panic` -/
+def vsetOfResult (impl : String) : Option VSet :=
+  if impl == "none" then some []
+  else match impl.splitOn " " with
+    | ["some", h] => vsetOfField h
+    | _ => none
+
+def showV (v : Version) : String := String.ofList v.render
+
+def firstBad (vs : List Version) (ok : Version → Bool) : Option Version := vs.find? (fun v => !ok v)
+
+def setLaw (tags : List String) (what : String) (vs : List Version) (ok : Version → Bool) :
+    List (String × String) :=
+  match firstBad vs ok with
+  | some v => tags.map (fun t => (t, s!"{what} fails at version {showV v}"))
+  | none => []
+
+def flagOf (impl key : String) : Option String :=
+  (impl.splitOn " ").findSome? (fun f => if f.startsWith (key ++ "=") then some (f.drop (key.length + 1)).toString else none)
+
+/-- expression trees over printed leaves, evaluated as sets -/
+inductive SExpr where
+  | leaf (s : VSet)
+  | isect (a b : SExpr)
+  | diff (a b : SExpr)
+
+def parseSExpr : Nat → List String → Option (SExpr × List String)
+  | 0, _ => none
+  | _ + 1, [] => none
+  | fuel + 1, tok :: rest =>
+    if tok == "I" || tok == "D" then do
+      let (a, r1) ← parseSExpr fuel rest
+      let (b, r2) ← parseSExpr fuel r1
+      pure (if tok == "I" then .isect a b else .diff a b, r2)
+    else match tok.toList with
+      | 'L' :: h => do
+        let s ← vsetOfField (String.ofList h)
+        pure (.leaf s, rest)
+      | _ => none
+
+def SExpr.denote : SExpr → Version → Bool
+  | .leaf s, v => s.within v
+  | .isect a b, v => a.denote v && b.denote v
+  | .diff a b, v => a.denote v && !b.denote v
+
+def SExpr.leaves : SExpr → List VSet
+  | .leaf s => [s]
+  | .isect a b => a.leaves ++ b.leaves
+  | .diff a b => a.leaves ++ b.leaves
+
+def check (op : String) (args : List String) (impl : String) : List (String × String) :=
   match op, args with
   | "vcmp", [a, b] =>
     match decodeVersion a, decodeVersion b with
     | some a, some b =>
-      let spec := Spec.prec a b
+      let spec := prec a b
       let eqSpec := spec == .eq
       let want := s!"{ordStr spec} beq={b01 eqSpec}"
-      -- hash: equal versions must hash equally (unequal may collide)
       let parts := impl.splitOn " "
       let okOrd := impl.startsWith want
       let okHash := !eqSpec || parts.getLast? == some "hash=1"
       (if okOrd then [] else [("C04", s!"cmp/eq: crate `{impl}` spec `{want}`")]) ++
       (if okHash then [] else [("C04", "equal versions hash differently")])
     | _, _ => []
+  | "vdiff", [a, b] =>
+    match decodeVersion a, decodeVersion b with
+    | some a, some b =>
+      let want := match npmDiff a b with
+        | some d => d.render
+        | none => "none"
+      if impl == want then [] else [("C16", s!"diff: crate `{impl}` node-semver `{want}`")]
+    | _, _ => []
+  | "isect", [a, b] =>
+    if impl == "panic" then [("C06", "intersect panicked"), ("C07", "intersect panicked"), ("C15", "intersect panicked")] else
+    match vsetOfField a, vsetOfField b, vsetOfResult impl with
+    | some A, some B, some R =>
+      let g := grid [A, B, R]
+      setLaw ["C07", "C15"] "within(A∩B) = within A ∧ within B" g (fun v => R.within v == (A.within v && B.within v)) ++
+      setLaw ["C07"] "release: sat(A∩B) = sat A ∧ sat B" g (fun v => !v.pre.isEmpty || R.sat v == (A.sat v && B.sat v)) ++
+      setLaw ["C07"] "prerelease satisfying both satisfies the result" g (fun v => !(A.sat v && B.sat v) || R.sat v) ++
+      setLaw ["C07"] "prerelease satisfying the result satisfies an operand" g (fun v => !R.sat v || (A.sat v || B.sat v))
+    | some _, some _, none => [("C07", "result of intersect does not re-parse"), ("C13", "result of intersect does not re-parse"), ("C15", "result of intersect does not re-parse")]
+    | _, _, _ => []
+  | "rdiff", [a, b] =>
+    if impl == "panic" then [("C06", "difference panicked"), ("C08", "difference panicked"), ("C15", "difference panicked")] else
+    match vsetOfField a, vsetOfField b, vsetOfResult impl with
+    | some A, some B, some R =>
+      let g := grid [A, B, R]
+      setLaw ["C08", "C15"] "within(A−B) = within A ∧ ¬within B" g (fun v => R.within v == (A.within v && !B.within v)) ++
+      setLaw ["C08"] "release: sat(A−B) = sat A ∧ ¬sat B" g (fun v => !v.pre.isEmpty || R.sat v == (A.sat v && !B.sat v))
+    | some _, some _, none => [("C08", "result of difference does not re-parse"), ("C13", "result of difference does not re-parse"), ("C15", "result of difference does not re-parse")]
+    | _, _, _ => []
+  | "any", [a, b] =>
+    if impl == "panic" then [("C06", "allows_any panicked"), ("C09", "allows_any panicked")] else
+    match vsetOfField a, vsetOfField b with
+    | some A, some B =>
+      let x := impl.take 1
+      let g := grid [A, B]
+      (if flagOf impl "isect" == some x.toString then [] else [("C09", s!"allows_any ≠ intersect.is_some: `{impl}`")]) ++
+      (if flagOf impl "rev" == some x.toString then [] else [("C09", s!"allows_any not symmetric: `{impl}`")]) ++
+      (if x.toString == "0" then setLaw ["C09"] "allows_any = false but a version lies within both" g (fun v => !(A.within v && B.within v)) else []) ++
+      (if x.toString == "0" then [] else
+        -- overlap claimed: nothing to refute pointwise (gaps in the order can hide the witness)
+        [])
+    | _, _ => []
+  | "all", [a, b] =>
+    if impl == "panic" then [("C06", "allows_all panicked"), ("C10", "allows_all panicked")] else
+    match vsetOfField a, vsetOfField b with
+    | some A, some B =>
+      let x := (impl.take 1).toString
+      let g := grid [A, B]
+      (if flagOf impl "self" == some "1" then [] else [("C10", "a range does not allow all of itself")]) ++
+      (if B.length == 1 && x == "1" then
+        setLaw ["C10"] "allows_all = true but a version of B lies outside A" g (fun v => !B.within v || A.within v) ++
+        (if flagOf impl "any" == some "1" then [] else [("C10", "allows_all without allows_any")])
+       else []) ++
+      (if A.length == 1 && B.length == 1 && flagOf impl "diffnone" != some x then
+        [("C10", s!"allows_all ≠ (B.difference(A) is None): `{impl}`")] else [])
+    | _, _ => []
+  | "sat", [_, printed, v] =>
+    if impl == "panic" then [("C06", "satisfies panicked")] else
+    match vsetOfField printed, decodeVersion v with
+    | some R, some v =>
+      let want := b01 (R.sat v)
+      if impl == want then [] else [("C03", s!"satisfies: crate {impl}, bounds+tag rule {want} at {showV v}")]
+    | _, _ => []
+  | "minv", [_, printed] =>
+    if impl == "panic" then [("C06", "min_version panicked"), ("C11", "min_version panicked")] else
+    match vsetOfField printed with
+    | some R =>
+      let g := grid [R]
+      if impl == "none" then setLaw ["C11"] "min_version = None but a version satisfies" g (fun v => !R.sat v)
+      else match decodeVersion impl with
+        | some m =>
+          (if R.sat m then [] else [("C11", s!"min_version {showV m} does not satisfy the range")]) ++
+          setLaw ["C11"] s!"a version below min_version {showV m} satisfies" (g ++ around m) (fun v => !(prec v m == .lt && R.sat v))
+        | none => []
+    | none => []
+  | "maxsat", _ :: printed :: vs =>
+    match vsetOfField printed, vs.mapM decodeVersion with
+    | some R, some vs =>
+      let sats := vs.filter R.sat
+      if impl == "none" then (if sats.isEmpty then [] else [("C14", "max_satisfying = None but an element satisfies")])
+      else match decodeVersion impl with
+        | some m =>
+          (if vs.any (fun x => decide (x = m)) then [] else [("C14", "max_satisfying returned a non-element")]) ++
+          (if R.sat m then [] else [("C14", s!"max_satisfying returned {showV m}, which does not satisfy")]) ++
+          setLaw ["C14"] s!"an element above max_satisfying {showV m} satisfies" sats (fun x => prec x m != .gt)
+        | none => [("C14", s!"max_satisfying: `{impl}`")]
+    | _, _ => []
+  | "minsat", _ :: printed :: vs =>
+    match vsetOfField printed, vs.mapM decodeVersion with
+    | some R, some vs =>
+      let sats := vs.filter R.sat
+      if impl == "none" then (if sats.isEmpty then [] else [("C14", "min_satisfying = None but an element satisfies")])
+      else match decodeVersion impl with
+        | some m =>
+          (if vs.any (fun x => decide (x = m)) then [] else [("C14", "min_satisfying returned a non-element")]) ++
+          (if R.sat m then [] else [("C14", s!"min_satisfying returned {showV m}, which does not satisfy")]) ++
+          setLaw ["C14"] s!"an element below min_satisfying {showV m} satisfies" sats (fun x => prec x m != .lt)
+        | none => [("C14", s!"min_satisfying: `{impl}`")]
+    | _, _ => []
+  | "expr", [e] =>
+    if impl == "panic" then [("C06", "a composition of intersect/difference panicked"), ("C15", "a composition of intersect/difference panicked")] else
+    let toks := e.splitOn " "
+    match parseSExpr (toks.length + 1) toks, vsetOfResult impl with
+    | some (ex, []), some R =>
+      let g := grid (R :: ex.leaves)
+      setLaw ["C15"] "result of the composition ≠ its set meaning" g (fun v => R.within v == ex.denote v)
+    | some _, none => [("C15", "result of a composition does not re-parse")]
+    | _, _ => []
+  | "vround", [_] =>
+    if impl == "perr" || impl == "ok same=1 fixed=1" then [] else [("C12", s!"print/parse round trip: {impl}")]
+  | "serdev", [_] =>
+    if impl == "perr" || flagOf impl "same" == some "1" then [] else [("C12", s!"serde round trip: {impl}")]
+  | "rround", [_] =>
+    if impl == "perr" || impl == "ok eq=1 fixed=1" then [] else [("C13", s!"print/parse round trip: {impl}")]
+  | "serder", [_] =>
+    if impl == "perr" || flagOf impl "eq" == some "1" then [] else [("C13", s!"serde round trip: {impl}")]
+  | "vfrom3", [a, b, c] =>
+    match a.toNat?, b.toNat?, c.toNat? with
+    | some a, some b, some c =>
+      let v : Version := ⟨a, b, c, [], []⟩
+      let txt := s!"{a}.{b}.{c}"
+      let want := s!"{encodeVersion v} {encodeText txt.toList} parse={encodeVersion v}"
+      if impl == want then [] else [("C18", s!"from tuple: crate `{impl}` expected `{want}`")]
+    | _, _, _ => []
+  | "vfrom4", [a, b, c, d] =>
+    match a.toNat?, b.toNat?, c.toNat?, d.toNat? with
+    | some a, some b, some c, some d =>
+      let v : Version := ⟨a, b, c, [.num d], []⟩
+      let txt := s!"{a}.{b}.{c}-{d}"
+      let want := s!"{encodeVersion v} {encodeText txt.toList} parse={encodeVersion v}"
+      if impl == want then [] else [("C18", s!"from tuple: crate `{impl}` expected `{want}`")]
+    | _, _, _, _ => []
+  | "vparse", [t] =>
+    if impl == "panic" then [("C06", "Version::parse panicked")] else
+    match decodeText t with
+    | some s =>
+      let want := denotedVersion s
+      let f := impl.splitOn " "
+      match f with
+      | "ok" :: ver :: _ =>
+        match want with
+        | some w => if ver == encodeVersion w then [] else [("C05", s!"parsed fields `{ver}` differ from the denoted `{encodeVersion w}`")]
+        | none => [("C05", "accepted a string outside the version language")]
+      | ["err", kind, off, loc, inp] =>
+        (match want with
+          | some _ => [("C05", s!"rejected a well-formed version string ({kind})")]
+          | none => []) ++
+        (if inp == encodeText s then [] else [("C17", "error input() is not the string that was passed in")]) ++
+        (match off.toNat? with
+          | some o =>
+            (if isBoundary s o then [] else [("C17", s!"offset {o} is not a character boundary of the input")]) ++
+            (match lineCol s o with
+              | some (l, c) => if loc == s!"{l}:{c}" then [] else [("C17", s!"location {loc}, expected {l}:{c}")]
+              | none => if loc == "panic" then [("C06", "location() panicked")] else [])
+          | none => [("C17", "offset not a number")]) ++
+        (if utf8Length s > 256 && kind != "MaxLength" then [("C17", s!"over-long input reported as {kind}")] else [])
+      | _ => [("C05", s!"unexpected answer `{impl}`")]
+    | none => []
+  | "rparse", [t] =>
+    if impl == "panic" then [("C06", "Range::parse panicked")] else
+    match decodeText t with
+    | some s =>
+      match impl.splitOn " " with
+      | ["err", kind, off, loc, inp] =>
+        (if inp == encodeText s then [] else [("C17", "error input() is not the string that was passed in")]) ++
+        (if kind == "NoValidRanges" then [] else [("C17", s!"range error kind {kind}")]) ++
+        (match off.toNat? with
+          | some o =>
+            (if isBoundary s o then [] else [("C17", s!"offset {o} is not a character boundary of the input")]) ++
+            (match lineCol s o with
+              | some (l, c) => if loc == s!"{l}:{c}" then [] else [("C17", s!"location {loc}, expected {l}:{c}")]
+              | none => if loc == "panic" then [("C06", "location() panicked")] else [])
+          | none => [("C17", "offset not a number")])
+      | _ => []
+    | none => []
   | _, _ => []
+
+end Oracle
+
+def oracles (op : String) (args : List String) (impl : String) : List (String × String) :=
+  Oracle.check op args impl
 
 partial def loop (h : IO.FS.Stream) (out : IO.FS.Stream) : IO Unit := do
   let line ← h.getLine
